@@ -185,22 +185,18 @@ def check(pid, cfg, args):
             for rep in reps:
                 if rep.smoke is not None and (rep.smoke.z3 == 'unsat' or rep.smoke.cvc5 == 'unsat'):
                     errors.append('vacuous precondition for %s' % rep.proc.key)
-        # retry open obligations once, sequentially, with a larger budget (robustness under load)
-        open_ = [(lbl, o, r) for lbl, o, r, _ in labelled if not r.discharged and not r.refuted]
-        if open_ and len(open_) <= 40:
+        # retry open obligations once (in parallel, larger budget): robustness against load-induced timeouts
+        open_ = [(lbl, o, r) for lbl, o, r, _ in labelled if not r.discharged and not r.refuted
+                 and ledger.get(lbl, {}).get('discharged')]
+        if open_ and len(open_) <= 48:
             from zivc import solve
-            import z3
+            items = []
             for lbl, o, r in open_:
-                if lbl in ledger and ledger[lbl].get('discharged'):
-                    regx = [g for g in regs]
-                    # find registry of this obligation
-                    for reg in regs:
-                        if lbl.split('::')[0] in reg.procs or lbl.startswith('lemma::'):
-                            smt = solve.to_smt2(zrun.all_axioms(reg), o.hyps, o.goal)
-                            rr = solve.discharge([(lbl, smt)], jobs=1, z3_timeout=60000)[0]
-                            if rr.discharged:
-                                r.z3, r.cvc5 = rr.z3, rr.cvc5
-                            break
+                reg = next((g for g in regs if lbl.split('::')[0] in g.procs), regs[0])
+                items.append((lbl, solve.to_smt2(zrun.all_axioms(reg), o.hyps, o.goal)))
+            for (lbl, o, r), rr in zip(open_, solve.discharge(items, z3_timeout=30000)):
+                if rr.discharged:
+                    r.z3, r.cvc5 = rr.z3, rr.cvc5
     if ax_smoke_bad:
         errors.append('axioms are inconsistent (smoke obligation proved false)')
 
